@@ -461,6 +461,46 @@ func (st *c18State) sweep(worker int) {
 		c.must(cfg, "existing-order/buy", &markettypes.MsgBuyDirect{Buyer: buyer, Orders: []*markettypes.MsgBuyDirect_Order{{SellOrderId: ids[0], Quantity: "1.5", BidPrice: coinP(denom, 1000), DisableAutoRetire: true, MaxFeeAmount: coinP(denom, 100000)}}})
 		c.must(cfg, "existing-order/cancel", &markettypes.MsgCancelSellOrder{Seller: seller, SellOrderId: ids[1]})
 	}
+	// ---- G5: allowed bridge chains added by governance under several spellings of the name: bridging in
+	// from, and out to, a chain governance has accepted must work (and stop working once it is removed)
+	for i, name := range []string{"polygon", "Polygon", "ETHEREUM", "celo-alfajores"} {
+		c, err := newC18Chain(st, fmt.Sprintf("w%d-g5-%d", worker, i), nil, nil)
+		if err != nil {
+			continue
+		}
+		batch, ok := c.setupMarket("g5")
+		if !ok {
+			continue
+		}
+		cls := strings.SplitN(batch, "-", 2)[0]
+		cfg := fmt.Sprintf("allowed_bridge_chain=%q (gov)", name)
+		c.try(&basetypes.MsgRemoveAllowedBridgeChain{Authority: gov, ChainName: name}) // the default genesis may already list it
+		if !c.try(&basetypes.MsgAddAllowedBridgeChain{Authority: gov, ChainName: name}) {
+			st.rejected++
+			continue
+		}
+		st.accepted++
+		st.cell(cfg)
+		sd, ed := time.Date(2020, 1, 1, 0, 0, 0, 0, time.UTC), time.Date(2021, 1, 1, 0, 0, 0, 0, time.UTC)
+		r := c.must(cfg, "bridge-receive", &basetypes.MsgBridgeReceive{Issuer: A[0], ClassId: cls,
+			Project:  &basetypes.MsgBridgeReceive_Project{ReferenceId: "G5", Jurisdiction: "US", Metadata: "m"},
+			Batch:    &basetypes.MsgBridgeReceive_Batch{Recipient: A[4], Amount: "100", StartDate: &sd, EndDate: &ed, Metadata: "m"},
+			OriginTx: &basetypes.OriginTx{Id: fmt.Sprintf("0x%064x", 500+i), Source: name, Contract: fmt.Sprintf("0x%040x", 900+i)}})
+		if r == nil || !r.OK {
+			continue
+		}
+		bd := r.Resps[0].(*basetypes.MsgBridgeReceiveResponse).BatchDenom
+		cr := func(a string) []*basetypes.Credits { return []*basetypes.Credits{{BatchDenom: bd, Amount: a}} }
+		c.must(cfg, "bridge", &basetypes.MsgBridge{Owner: A[4], Target: name, Recipient: fmt.Sprintf("0x%040x", 7), Credits: cr("10")})
+		c.must(cfg, "bridge/lower-case-target", &basetypes.MsgBridge{Owner: A[4], Target: strings.ToLower(name), Recipient: fmt.Sprintf("0x%040x", 7), Credits: cr("1.5")})
+		c.must(cfg, "bridge-receive/existing-batch", &basetypes.MsgBridgeReceive{Issuer: A[0], ClassId: cls,
+			Project:  &basetypes.MsgBridgeReceive_Project{ReferenceId: "G5", Jurisdiction: "US", Metadata: "m"},
+			Batch:    &basetypes.MsgBridgeReceive_Batch{Recipient: A[4], Amount: "3", StartDate: &sd, EndDate: &ed, Metadata: "m"},
+			OriginTx: &basetypes.OriginTx{Id: fmt.Sprintf("0x%064x", 600+i), Source: name, Contract: fmt.Sprintf("0x%040x", 900+i)}})
+		if c.try(&basetypes.MsgRemoveAllowedBridgeChain{Authority: gov, ChainName: name}) {
+			c.e.Exec(eng.Tx{Msgs: []sdk.Msg{&basetypes.MsgBridge{Owner: A[4], Target: name, Recipient: fmt.Sprintf("0x%040x", 7), Credits: cr("1")}}, Tag: "probe/bridge-after-removal"})
+		}
+	}
 	// ---- G4: configurations set in GENESIS (accepted by the module's ValidateGenesis)
 	type m = map[string]interface{}
 	set := func(eco map[string]json.RawMessage, table string, v interface{}) {
